@@ -614,7 +614,7 @@ def job_world(p):
         sets, code = run_case(
             g, F, ms, viol, ctx, how=SPELLS[(n + k) % len(SPELLS)], create_fmts=alt(F) if n % 2 else None, stage2=(full or n % 2 == 0)
         )
-        key = (tree, ni, hist, tuple((m[0], m[2]) for m in ms))
+        key = (tree, ni, hist, tuple(F), tuple((m[0], m[2]) for m in ms))
         out.append(result(cid, key, {"case": cid, "mutation": [f"{m[0]} {m[2]}" for m in ms], "A,R,N": [len(x) for x in sets], "create": code}, viol))
         shutil.rmtree(os.path.dirname(g.root), ignore_errors=True)
     shutil.rmtree(tmp, ignore_errors=True)
@@ -1032,7 +1032,7 @@ def plan(run):
                         continue
                 k += 1
                 if tier == "thorough":
-                    mode, ncomb = ("all", 16) if hist == "one" else ("stride3", 6)
+                    mode, ncomb = ("all", 16) if hist == "one" else ("stride2", 8)
                 else:
                     mode, ncomb = ("stride6", 2) if hist == "one" else ("kinds", 1)
                 for x in range(2 if (tier == "thorough" and hist == "one") else 1):
@@ -1081,11 +1081,14 @@ def main():
         "name with that name as prefix), touch all mtimes, change ignored paths}; each case runs verify, diff (also on a nested root), "
         "create and verify, diff again and compares exit codes and named paths with the ghost-model oracle; non-trivial = distinct "
         "(world, mutation targets) on a world with at least one recorded entry",
-        bound="trees of scen.TREES (<= 7 entries, depth <= 4) + a 15-file ignore tree + 4 files of 1 MiB -1/0/+1 and 2 MiB; <= 3 nested "
-        "histories, 3 levels deep; histories of 1-12 generations (format changes, -n, -sf, repeated options, failed and incomplete "
-        "generations); 12 ignore-pattern worlds (-i, -ii, anchored, trailing slash, negation, check-time patterns); 7 time zones; "
-        "create killed at every file-system event (thorough) or 12 of them (quick); quick: all single mutations on the one-generation "
-        "worlds, one mutation per kind elsewhere; thorough: all single mutations + 30 combinations on every world",
+        bound="trees of scen.TREES (<= 7 entries, depth <= 4) + a 15-file ignore tree + files of 1 MiB -1/0/+1 and 2 MiB + a tree with file "
+        "symlinks; <= 3 nested histories, 3 levels deep; 10 history scripts of 1-12 generations (format changes, -n, -sf, repeated "
+        "options, failed and incomplete generations); 12 ignore-pattern worlds (-i, -ii, anchored, trailing slash, negation, patterns "
+        "added later, check-time patterns); 7 time zones (6 pairs quick, all 42 thorough); root spelled absolute / trailing slash / "
+        "relative / '.' / '..'; create killed at 12 (quick) or all (thorough) of its file-system events; quick: every 6th single "
+        "mutation (rotating) + 2 combinations on each one-generation world of all 37 (tree, placement) pairs, one mutation per kind + 1 "
+        "combination on 18 worlds with the other history scripts; thorough: all single mutations + 16 combinations on the "
+        "one-generation worlds with 2 format sets, every 2nd single mutation + 8 combinations on ~140 worlds with the other scripts",
     )
     jobs = plan(run)
     nproc = int(os.environ.get("VERIF_JOBS", "0") or 0) or min(12, os.cpu_count() or 1)
